@@ -678,3 +678,5 @@ CHECKS["C03"]["jobs"].append(J("subdir-files", VSTORE, "TestC16CheckExact", {"sh
 CHECKS["C03"]["required_classes"]["all"] += ["sub-directory-holding-files-named-like-hash-files"]
 CHECKS["C12"]["required_classes"]["all"] += ["burst:some-upgrades-were-dropped"]
 CHECKS["C10"]["required_classes"]["all"] += ["agent-with-password-policy(stored passwords do not meet it)"]
+CHECKS["C19"]["required_classes"]["all"] += ["agent-op:login-that-made-the-agent-rewrite-the-record"]
+CHECKS["C19"]["assumptions"] = CHECKS["C19"].get("assumptions", []) + ["a hash upgrade on login is an update made through the agent: it is a change that must be followed by a hook round (the code under test notifies from its update path)"]
